@@ -102,7 +102,11 @@ def gen_profile(rng, i):
         words = rng.sample(POOL_WORDS, k)
         if k > 1:
             feats.add("multi-word")
-        return "#aa:%s %s" % (kind, " ".join(words))
+        tail = ""
+        if rng.random() < 0.12:
+            tail = rng.choice(["  ", "\t", " \t ", " "])        # blanks an editor left after the filters
+            feats.add("trailing-blanks")
+        return "#aa:%s %s%s" % (kind, rng.choice([" ", " ", " ", "  ", "\t"]).join(words) if len(words) > 1 else words[0], tail)
 
     def block(indent, depth):
         nparas = rng.randint(2, 5)
